@@ -29,6 +29,9 @@ for name in sorted(os.listdir(os.path.join(HERE, "seeded"))):
         if meta.get("not_claimed"):
             rows.append((name, "not claimed", meta.get("note", "")[:110]))
             continue
+        if meta.get("not_covered"):
+            rows.append((name, "NOT COVERED", meta.get("note", "")[:110]))
+            continue
         sigs, nviol, rc = [], 0, 0
         for judge in meta.get("judged_by") or [pid]:
             p = subprocess.run(["./check", judge, "--tier", "quick", "--no-evidence"], cwd=HERE, env=env, capture_output=True, text=True)
@@ -46,5 +49,5 @@ for name in sorted(os.listdir(os.path.join(HERE, "seeded"))):
         subprocess.run(["git", "-C", "/repo", "worktree", "remove", "--force", wt])
 for r in rows:
     print("%-8s %-22s %s" % r)
-claimed = [r for r in rows if r[1] != "not claimed"]
+claimed = [r for r in rows if r[1] not in ("not claimed",)]
 print("%d/%d detected (%d not claimed)" % (sum(1 for r in claimed if r[1] == "detected"), len(claimed), len(rows) - len(claimed)))
